@@ -5,6 +5,8 @@ import (
 	"fmt"
 	"net"
 	"time"
+
+	"hop.computer/hop/transport"
 )
 
 // C15 — a session's peer address moves only on authentic, fresh packets.
@@ -18,10 +20,17 @@ func scRoaming(r *Run) {
 	defer n.Stop()
 	n.Cfg.Latency = time.Duration(1+r.Intn("cfg", 15)) * time.Millisecond
 	hidden := r.Intn("cfg", 3) == 0
-	srv := StartServer(r, n, ServerOpts{Hidden: hidden})
+	// a tuning knob that must not matter: tiny receive queues and a slow application, so that genuine
+	// packets are dropped because the queue is full
+	maxBuf := 0
+	if r.Intn("cfg", 3) == 0 {
+		maxBuf = 1 + r.Intn("cfg", 4)
+	}
+	r.SetCfg("max-buffered", maxBuf)
+	srv := StartServer(r, n, ServerOpts{Hidden: hidden, MaxBuffered: maxBuf})
 	defer srv.Srv.Close()
 	reg := NewHandleRegistry(r, srv.Srv)
-	tc := NewTClient(r, n, srv, ClientOpts{Hidden: hidden})
+	tc := NewTClient(r, n, srv, ClientOpts{Hidden: hidden, Mutate: func(cfg *transport.ClientConfig) { cfg.MaxBufferedPackets = maxBuf }})
 	if err := tc.C.Handshake(); err != nil {
 		r.Violate("C15/nofault/handshake-failed", "%v", err)
 		return
@@ -96,10 +105,9 @@ func scRoaming(r *Run) {
 	}
 	n.AfterStep = func(d *Dgram) { inStep = false }
 	n.OnSend = func(d *Dgram) {
-		var src *Endpoint
-		n.mu.Lock()
-		src = n.eps[d.Src.String()]
-		n.mu.Unlock()
+		// (the endpoint that made the transmission, not whoever owns the source address by now: a datagram
+		// handed over right before an address change still carries the old source address)
+		src := d.SrcEP
 		origin[d.ID] = src
 		if !isSession(d.Data) {
 			return
@@ -145,6 +153,25 @@ func scRoaming(r *Run) {
 	}
 	traffic("c2s", tc.C.WriteMsg)
 	traffic("s2c", h.WriteMsg)
+	// several writers per connection and socket writes that block now and then: a writer can be held up
+	// behind another one while the peer's address changes
+	if r.Intn("cfg", 3) == 0 {
+		traffic("c2s-b", tc.C.WriteMsg)
+		traffic("s2c-b", h.WriteMsg)
+		if r.Intn("cfg", 2) == 0 {
+			traffic("s2c-c", h.WriteMsg)
+		}
+		pStall := 0.05 + 0.4*r.Float("cfg")
+		for _, ep := range []*Endpoint{srv.EP, tc.EP} {
+			ep := ep
+			ep.WriteStall = func() time.Duration {
+				if !r.Fault("socket-write-stall", ep.Name, pStall) {
+					return 0
+				}
+				return time.Duration(1+r.Intn("stall:"+ep.Name, 200)) * time.Millisecond
+			}
+		}
+	}
 	drain := func(rd func([]byte) (int, error), dl func(time.Time) error) {
 		r.Go(func() {
 			buf := make([]byte, 2048)
@@ -156,6 +183,9 @@ func scRoaming(r *Run) {
 				}
 				dl(time.Now().Add(200 * time.Millisecond))
 				rd(buf)
+				if maxBuf > 0 {
+					time.Sleep(time.Duration(r.Intn("slow-app", 400)) * time.Millisecond)
+				}
 			}
 		})
 	}
@@ -251,6 +281,20 @@ func scRoaming(r *Run) {
 	// liveness: the roaming endpoint keeps its session
 	n.Cfg.PDrop, n.Cfg.PDup, n.Cfg.Jitter = 0, 0, 0
 	sess := &liveSess{tc, h}
+	if maxBuf > 0 { // make room for the probes
+		buf := make([]byte, 2048)
+		for _, c := range []interface {
+			ReadMsg([]byte) (int, error)
+			SetReadDeadline(time.Time) error
+		}{h, tc.C} {
+			for i := 0; i < 50; i++ {
+				c.SetReadDeadline(time.Now().Add(50 * time.Millisecond))
+				if _, err := c.ReadMsg(buf); err != nil {
+					break
+				}
+			}
+		}
+	}
 	r.Obligation(1)
 	// Precondition of the liveness clause: a genuine fresh packet from the mover's current
 	// address must be able to reach the other endpoint, i.e. at least one side still knows
